@@ -244,7 +244,7 @@ fn materialise(sc: &Scenario, ext_gz: bool, root: &Path) -> Value {
                 let mut ctl = String::new();
                 for w in writes {
                     match &w.content {
-                        None => ctl.push_str(&format!("mkdir -p \"./{}\"\n", w.name)),
+                        None => ctl.push_str(&format!("rm -rf \"./{}\"; mkdir -p \"./{}\"\n", w.name, w.name)),
                         Some(c) => {
                             let p = put(&content_bytes(c, ids));
                             ids += 1;
@@ -520,7 +520,7 @@ fn gen_scenario(rng: &mut Rng, ext_gz: bool) -> Scenario {
                                 14 => "grcov.profdata".to_string(),
                                 _ => other(rng, &mut next),
                             };
-                            if rng.chance(1, 25) {
+                            if rng.chance(1, 25) && name != "grcov.profdata" {
                                 writes.push(Write_ { name, content: None });
                             } else {
                                 let c = gen_content_for(rng, &name, &mut next);
@@ -678,26 +678,6 @@ fn oracle(sc: &Scenario, ext_gz: bool) -> Option<Vec<String>> {
     Some(out)
 }
 
-/// matcher of finding C20-profdata-left-in-worker-dir: the failing item is a notes item handled in
-/// MultipleFiles mode and the last thing that touched the directory before it is an LLVM item
-/// whose merge left `grcov.profdata` there
-fn profdata_matcher(sc: &Scenario, i: usize) -> bool {
-    if sc.style != 'M' || sc.binary == 0 {
-        return false;
-    }
-    if !matches!((&sc.items[i].kind, sc.items[i].fmt), (Kind::P { .. }, 'G')) {
-        return false;
-    }
-    for j in (0..i).rev() {
-        match (&sc.items[j].kind, sc.items[j].fmt) {
-            (Kind::P { .. }, 'G') => return false,
-            (Kind::L { profdata: Some(_), .. }, 'R') | (Kind::L { profdata: Some(_), .. }, 'D') => return true,
-            _ => {}
-        }
-    }
-    false
-}
-
 // ---------------------------------------------------------------------------------------------
 // parent
 
@@ -728,13 +708,15 @@ fn sc_json(sc: &Scenario, ext_gz: bool, seed: u64, n: u64, index: usize) -> Valu
     json!({"op": "c20.cons.run", "ext_gz": ext_gz, "seed": seed, "n": n, "index": index, "scenario": format!("{:?}", sc)})
 }
 
-fn run_batch(rep: &mut Report, rng: &mut Rng, stubs: &Path, ext_gz: bool, n: u64, tag: &str, only: Option<usize>) {
+/// `all` = the scenarios of this batch (generated, or read from the corpus); `only` = run just that
+/// one (replay of a generated case); `corpus` = the corpus case the scenarios come from
+fn run_batch(rep: &mut Report, stubs: &Path, ext_gz: bool, all: Vec<Scenario>, tag: &str, only: Option<usize>, corpus: Option<&Value>) {
+    let n = all.len() as u64;
     let base = rep.workdir.join(format!("cons-{}", tag));
     let _ = std::fs::remove_dir_all(&base);
     std::fs::create_dir_all(&base).unwrap();
     let vf = base.join("version.txt");
     std::fs::write(&vf, if ext_gz { "gcov (GCC) 12.2.0\n" } else { "gcov (GCC) 8.3.0\n" }).unwrap();
-    let all: Vec<Scenario> = (0..n).map(|_| gen_scenario(rng, ext_gz)).collect();
     // a replay runs one scenario of the regenerated batch
     let sel: Vec<usize> = match only {
         Some(k) => vec![k].into_iter().filter(|k| *k < all.len()).collect(),
@@ -769,7 +751,10 @@ fn run_batch(rep: &mut Report, rng: &mut Rng, stubs: &Path, ext_gz: bool, n: u64
         let real: Value = serde_json::from_str(lines[i + 1]).unwrap_or(Value::Null);
         let real_items: Vec<String> = real["items"].as_array().map(|a| a.iter().map(|x| x.as_str().unwrap_or("").to_string()).collect()).unwrap_or_default();
         let panicked = real_items.last().map(|s| s == "panic").unwrap_or(false);
-        let case = sc_json(sc, ext_gz, rep.seed, n, sel[i]);
+        let case = match corpus {
+            Some(c) => c.clone(),
+            None => sc_json(sc, ext_gz, rep.seed, n, sel[i]),
+        };
         rep.case(&reqs[i], sc.items.len() >= 2 && sc.items.iter().filter(|it| matches!(it.kind, Kind::P { .. })).count() >= 1);
         rep.count(&format!("cons.style={}", sc.style));
         for r in &real_items {
@@ -781,17 +766,16 @@ fn run_batch(rep: &mut Report, rng: &mut Rng, stubs: &Path, ext_gz: bool, n: u64
         // ---- the independent oracle first
         let mut oracle_failed = false;
         if real_items.iter().any(|r| r.starts_with("rejected-but")) {
-            rep.fail("oracle", None, "an item that was not merged changed the result map".into(), json!({"case": case, "real": real_items}));
+            rep.fail("oracle", None, "an item that was not merged changed the result map".into(), with(&case, json!({"real": real_items})));
             oracle_failed = true;
         }
         if let Some(want) = oracle(sc, ext_gz) {
             rep.count("cons.oracle_evaluated");
             if want != real_items {
                 let at = (0..want.len().max(real_items.len())).find(|&k| want.get(k) != real_items.get(k)).unwrap();
-                let finding = if at < sc.items.len() && profdata_matcher(sc, at) { Some("C20-profdata-left-in-worker-dir") } else { None };
-                rep.fail("oracle", finding,
+                rep.fail("oracle", None,
                     format!("item {} contributed {:?}, its own tool output contains {:?} (what a worker adds for an item must not depend on what it processed before)", at, real_items.get(at), want.get(at)),
-                    json!({"case": case, "real": real_items, "expected": want}));
+                    with(&case, json!({"real": real_items, "expected": want})));
                 oracle_failed = true;
             }
         }
@@ -825,7 +809,7 @@ fn run_batch(rep: &mut Report, rng: &mut Rng, stubs: &Path, ext_gz: bool, n: u64
         }
         if !same && !oracle_failed {
             rep.disagreements_checked += 1;
-            rep.fail("disagreement", None, format!("Consumer model and grcov::consumer differ in the {}", what), json!({"case": case, "request": reqs[i], "model": ans[i], "real": real}));
+            rep.fail("disagreement", None, format!("Consumer model and grcov::consumer differ in the {}", what), with(&case, json!({"request": reqs[i], "model": ans[i], "real": real})));
         } else if !same {
             rep.disagreements_checked += 1;
             rep.notes.push(format!("consumer: model differs too on a case whose oracle failed: {} vs {:?}", ans[i], real_items));
@@ -856,6 +840,14 @@ fn run_batch(rep: &mut Report, rng: &mut Rng, stubs: &Path, ext_gz: bool, n: u64
             rep.fail("disagreement", None, format!("gcov argv: model {:?}, real {:?}", want, argv_seen[i].0), argv_seen[i].1.clone());
         }
     }
+}
+
+fn with(case: &Value, extra: Value) -> Value {
+    let mut c = case.clone();
+    for (k, v) in extra.as_object().unwrap() {
+        c[k.as_str()] = v.clone();
+    }
+    c
 }
 
 fn splitne(s: &str, c: char) -> Vec<&str> {
@@ -1054,7 +1046,8 @@ fn findbin_stream(rep: &mut Report, rng: &mut Rng) {
     }
 }
 
-/// The closed witness of `C20_isolation_false_profdata` on the real binary with the real gcov:
+/// Regression oracle for the former finding C20-profdata-left-in-worker-dir (fixed by 2cb069b; its
+/// Lean witness is `witnessEnvProfdata`), on the real binary with the real gcov:
 /// one gcc-instrumented unit plus one profile, `--threads 1`. The LLVM item is sent first and leaves
 /// `grcov.profdata` in the worker's directory; gcov ≥ 12 names its output `<stem>.gcov.json.gz`, so
 /// the worker is in MultipleFiles mode and reads the profile data as a gcov file.
@@ -1107,21 +1100,114 @@ fn e2e_profdata(rep: &mut Report) {
         return;
     }
     if !reports[1].1.contains(&"unit.c".to_string()) {
-        rep.fail("oracle", Some("C20-profdata-left-in-worker-dir"),
-            "adding a profile to the inputs removes the gcc-instrumented unit from the report (threads=1, real gcov): the worker parsed grcov.profdata as gcov output and rejected the notes file".into(), case);
+        rep.fail("oracle", None,
+            "adding a profile to the inputs removes the gcc-instrumented unit from the report (threads=1, real gcov): the worker parsed grcov.profdata as gcov output and rejected the notes file (former finding C20-profdata-left-in-worker-dir, fixed by 2cb069b, is back)".into(), case);
     }
+}
+
+fn recs_from(v: &Value) -> Option<Recs> {
+    v.as_array()?.iter().map(|r| Some((r[0].as_str()?.to_string(), r[1].as_u64()?))).collect()
+}
+fn content_from(v: &Value) -> Option<Option<(char, Recs)>> {
+    if v.is_null() {
+        return Some(None);
+    }
+    Some(Some((v[0].as_str()?.chars().next()?, recs_from(&v[1])?)))
+}
+
+/// a self-contained scenario (corpus files): notes items, lcov/JaCoCo-format content items given by
+/// their lcov records, profile lists
+fn scenario_from_json(c: &Value) -> Option<(Scenario, bool)> {
+    let mut items = vec![];
+    for it in c["items"].as_array()? {
+        let fmt = it["fmt"].as_str()?.chars().next()?;
+        let kind = match it["k"].as_str()? {
+            "P" => Kind::P {
+                stem: it["stem"].as_str()?.to_string(),
+                fname: it["fname"].as_str()?.to_string(),
+                ok: it["ok"].as_bool()?,
+                writes: it["writes"].as_array()?.iter().map(|w| Some(Write_ { name: w[0].as_str()?.to_string(), content: content_from(&w[1])? })).collect::<Option<Vec<_>>>()?,
+            },
+            "C" => {
+                let bytes = lcov_content(&recs_from(&it["recs"])?);
+                let outcome = grcov::parse_lcov(bytes.clone(), false).ok().map(|r| project(&r));
+                Kind::C { bytes, outcome }
+            }
+            "L" => Kind::L {
+                merge_fail: it["merge_fail"].as_bool()?,
+                profdata: content_from(&it["profdata"])?,
+                exports: it["exports"].as_array()?.iter().map(|e| {
+                    if e.is_null() {
+                        Some(None)
+                    } else {
+                        let bytes = lcov_content(&recs_from(e)?);
+                        let o = grcov::parse_lcov(bytes.clone(), false).ok().map(|r| project(&r));
+                        Some(Some((bytes, o)))
+                    }
+                }).collect::<Option<Vec<_>>>()?,
+            },
+            _ => return None,
+        };
+        items.push(It { fmt, kind });
+    }
+    Some((
+        Scenario {
+            style: c["style"].as_str()?.chars().next()?,
+            guess: c["guess"].as_bool()?,
+            branch: c["branch"].as_bool()?,
+            binary: c["binary"].as_u64()? as u8,
+            nbins: c["nbins"].as_u64()? as usize,
+            items,
+        },
+        c["ext_gz"].as_bool()?,
+    ))
+}
+
+/// corpus/C20/*.json whose op is one of this part's; true when the end-to-end witness was among them
+fn corpus(rep: &mut Report, stubs: &Path) -> bool {
+    let mut files: Vec<PathBuf> = std::fs::read_dir("/verif/corpus/C20").map(|d| d.flatten().map(|e| e.path()).collect()).unwrap_or_default();
+    files.sort();
+    let mut ran_e2e = false;
+    for p in files {
+        let case: Value = match std::fs::read_to_string(&p).ok().and_then(|t| serde_json::from_str(&t).ok()) {
+            Some(v) => v,
+            None => continue,
+        };
+        match case["op"].as_str().unwrap_or("") {
+            "c20.cons.corpus" => {
+                rep.count("cons.corpus.cases");
+                match scenario_from_json(&case) {
+                    Some((sc, gz)) => run_batch(rep, stubs, gz, vec![sc], "corpus", None, Some(&case)),
+                    None => rep.notes.push(format!("consumer: corpus file {} is not a scenario", p.display())),
+                }
+            }
+            "c20.cons.e2e-profdata" => {
+                rep.count("cons.corpus.cases");
+                e2e_profdata(rep);
+                ran_e2e = true;
+            }
+            _ => {}
+        }
+    }
+    ran_e2e
 }
 
 pub fn run(rep: &mut Report) {
     let t0 = std::time::Instant::now();
     let mut rng = Rng::new(rep.seed ^ 0xC20C0);
     let stubs = stub_dir(rep);
+    // minimised past failures first
+    let ran_e2e = corpus(rep, &stubs);
     let n = rep.budget(150, 8);
-    run_batch(rep, &mut rng, &stubs, true, n, "gz", None);
-    run_batch(rep, &mut rng, &stubs, false, n, "text", None);
+    let all: Vec<Scenario> = (0..n).map(|_| gen_scenario(&mut rng, true)).collect();
+    run_batch(rep, &stubs, true, all, "gz", None, None);
+    let all: Vec<Scenario> = (0..n).map(|_| gen_scenario(&mut rng, false)).collect();
+    run_batch(rep, &stubs, false, all, "text", None, None);
     version_stream(rep, &mut rng, &stubs);
     findbin_stream(rep, &mut rng);
-    e2e_profdata(rep);
+    if !ran_e2e {
+        e2e_profdata(rep);
+    }
     eprintln!("c20 consumer part: {} ms", t0.elapsed().as_millis());
     rep.rule.push_str(
         "; Consumer: 1-6 work items per worker (notes files whose stub gcov follows the one-file convention, the \
@@ -1148,8 +1234,13 @@ pub fn replay(rep: &mut Report, case: &Value) {
                     let _ = gen_scenario(&mut rng, true);
                 }
             }
-            run_batch(rep, &mut rng, &stubs, gz, n, if gz { "gz" } else { "text" }, Some(index));
+            let all: Vec<Scenario> = (0..n).map(|_| gen_scenario(&mut rng, gz)).collect();
+            run_batch(rep, &stubs, gz, all, if gz { "gz" } else { "text" }, Some(index), None);
         }
+        "c20.cons.corpus" => match scenario_from_json(case) {
+            Some((sc, gz)) => run_batch(rep, &stubs, gz, vec![sc], "corpus", None, Some(case)),
+            None => rep.notes.push("consumer: malformed corpus scenario".into()),
+        },
         "c20.cons.e2e-profdata" => e2e_profdata(rep),
         "c20.cons.version" => {
             let t = case["text"].as_str().unwrap_or("").to_string();
